@@ -36,6 +36,10 @@ pub struct Elem {
     pub to: Option<AttrVal>,
     #[serde(default)]
     pub name: Option<AttrVal>,
+    /// the opening tag starts with the start delimiter written twice (the tag grammar strips
+    /// every repetition)
+    #[serde(default)]
+    pub double_ds: bool,
     /// a repeated `to` attribute written after the first one
     #[serde(default)]
     pub to_dup: Option<AttrVal>,
@@ -248,7 +252,8 @@ impl Elem {
             s.push_str(&doc.de);
             s
         } else {
-            format!("{}{}{} {}{}{}", doc.ds, sp, self.tag_name(doc), attrs.join(" "), sp, doc.de)
+            let ds2 = if self.double_ds { doc.ds.as_str() } else { "" };
+            format!("{}{}{}{} {}{}{}", doc.ds, ds2, sp, self.tag_name(doc), attrs.join(" "), sp, doc.de)
         }
     }
 
@@ -488,6 +493,7 @@ impl Doc {
                 e.indent.clear();
                 c
             }));
+            variants.push(Box::new(|e| std::mem::take(&mut e.double_ds)));
             variants.push(Box::new(|e| e.inline_child.take().is_some()));
             variants.push(Box::new(|e| e.inline_next.take().is_some()));
             variants.push(Box::new(|e| e.wrapper_inline2.take().is_some()));
@@ -734,6 +740,7 @@ impl<'a, 'b> DocGen<'a, 'b> {
             to,
             name,
             to_dup: None,
+            double_ds: false,
             skip: self.p.allow_skip && self.rng.chance(1, 12),
             unwrap: None,
             indent: indent.to_string(),
@@ -788,12 +795,14 @@ impl<'a, 'b> DocGen<'a, 'b> {
             }
         }
         let skip = self.p.allow_skip && self.rng.chance(1, 12);
+        let double_ds = self.rng.chance(1, 40);
         let mut e = Elem {
             id,
             kind,
             to,
             name,
             to_dup: None,
+            double_ds,
             skip,
             unwrap: None,
             indent: indent.clone(),
